@@ -321,6 +321,24 @@ fn huff_family(out: &mut Vec<TCase>, aliases: &[&str], thorough: bool, binary: b
             }
         }
     }
+    // large alphabets (uniform: complete bushy codes of 3..9 quad levels / 5..17 bits) and
+    // multi-chains (deep and bushy at the same time)
+    let sigmas: &[u32] = if thorough { &[17, 65, 257, 1025, 4097, 16385, 65537, 70001, 262145] } else { &[17, 65, 257, 1025, 4097, 16385, 65537, 70001] };
+    for (j, &sg) in sigmas.iter().enumerate() {
+        for rep in [1usize, 3] {
+            if rep == 3 && sg > 20000 && !thorough {
+                continue;
+            }
+            let al = aliases[(j + rep) % aliases.len()];
+            out.push(seq(al, "u32", Gen::Boundary { n: sg as usize * rep, pat: Pat::Periodic, sigma: sg }, "hid", 1025, 12));
+        }
+    }
+    for d in if thorough { vec![3u32, 5, 7, 9, 10, 11] } else { vec![3, 5, 7, 9] } {
+        for m in [2usize, 3, 5] {
+            let al = aliases[(d as usize + m) % aliases.len()];
+            out.push(seq(al, "u16", Gen::Huff { freqs: chain4x(d, m), arr: 2 }, "hid", 1025, 24));
+        }
+    }
     // chains: deep codes
     if binary {
         let ds: Vec<u32> = if thorough { (2..=24).chain([28, 31, 32, 33]).collect() } else { (2..=20).collect() };
